@@ -12,7 +12,8 @@
 // refills, growth by x4 and the clamp to the maximum are crossed with a few
 // dozen bytes.
 use super::env::*;
-use super::h_stor::*;
+use super::h_dirent::*;
+use crate::internal::alloc::vacc as aacc;
 use super::util::*;
 use crate::internal::directory::vacc as dacc;
 use crate::internal::minialloc::vacc as macc;
@@ -22,15 +23,42 @@ use std::io::{self, ErrorKind, Read, Seek, SeekFrom, Write};
 use super::lockty::RwLock;
 use std::sync::Arc;
 
-pub const CAP: usize = 64; // model capacity
-pub const L0: usize = 20; // initial stream length
+pub const CAP: usize = 32; // model capacity
+pub const L0: usize = 12; // initial stream length
 
+static mut MODEL_ON: bool = false; // the overlay's prologues divert the storage functions while set
 static mut ST: [u8; CAP] = [0; CAP]; // storage model: bytes
 static mut STLEN: usize = 0; // storage model: length
 static mut FAIL_BUDGET: u32 = 0; // faults the storage model may still inject
 static mut FAILED: u32 = 0; // faults injected so far
 static mut FAIL_READS: bool = false;
 static mut FAIL_WRITES: bool = false;
+
+pub fn model_on() -> bool {
+    unsafe { MODEL_ON }
+}
+
+/// A MiniAllocator that only has to exist: root + one stream entry of length L0,
+/// no sectors.  The storage functions never reach it while the model is on.
+pub type TF = ArrFile<8>;
+fn tiny_minialloc() -> MiniAllocator<TF> {
+    let mut root = em_blank();
+    root.ty = 5; root.nlen = 10;
+    let rn = b"Root Entry";
+    let mut k = 0;
+    while k < 10 { root.name[k] = rn[k]; k += 1; }
+    root.color = 1; root.child = 1; root.start = EOC;
+    let mut s1 = em_blank();
+    s1.ty = 2; s1.nlen = 1; s1.name[0] = b's'; s1.color = 1; s1.start = EOC; s1.len = L0 as u64;
+    let mut entries = Vec::with_capacity(2);
+    entries.push(to_dirent(&root));
+    entries.push(to_dirent(&s1));
+    let file = ArrFile::new([0u8; 8], 0);
+    let sectors = crate::internal::Sectors::new(crate::internal::Version::V3, 512, file);
+    let alloc = aacc::mk(sectors, Vec::new(), Vec::new(), Vec::new(), Vec::new());
+    let dir = dacc::mk(alloc, entries, 1);
+    macc::mk(dir, Vec::new(), EOC, Vec::new())
+}
 
 fn fault(enabled: bool) -> bool {
     unsafe {
@@ -105,34 +133,52 @@ pub fn model_resize<F: Read + Write + Seek>(m: &mut MiniAllocator<F>, id: u32, n
     Ok(())
 }
 
+/// Splits a result without running io::Error's drop glue (decode_repr of the
+/// tagged pointer on drop is what CBMC chokes on): the error is forgotten
+/// after its kind has been read.
+fn split<T>(r: io::Result<T>) -> (Option<T>, Option<ErrorKind>) {
+    match r {
+        Ok(v) => (Some(v), None),
+        Err(e) => {
+            let k = e.kind();
+            std::mem::forget(e);
+            (None, Some(k))
+        }
+    }
+}
+
 pub struct Model {
     pub b: [u8; CAP],
     pub len: usize,
     pub pos: usize,
 }
 
-fn init(p: &Parts) -> Model {
+fn init() -> Model {
+    let content: [u8; L0] = kani::any();
     let mut b = [0u8; CAP];
     let mut i = 0;
     while i < L0 {
-        b[i] = p.data[soff(3) + i]; // stream s = mini sector 0
-        unsafe { ST[i] = b[i]; }
+        b[i] = content[i];
+        unsafe { ST[i] = content[i]; }
         i += 1;
     }
-    unsafe { STLEN = L0; }
+    unsafe {
+        STLEN = L0;
+        MODEL_ON = true;
+    }
     Model { b, len: L0, pos: 0 }
 }
 
 /// One symbolically chosen call on the handle, checked against the model.
-fn step<F: Read + Write + Seek + 'static>(s: &mut Stream<F>, m: &mut Model) {
-    let op: u8 = kani::any();
+fn step(s: &mut Stream<TF>, m: &mut Model, fixed: u8) {
+    let op: u8 = if fixed < 6 { fixed } else { kani::any() };
     kani::assume(op < 6);
     if op == 0 {
         let n: usize = kani::any();
-        kani::assume(n <= 12);
-        let mut buf = [0u8; 12];
-        let r = s.read(&mut buf[..n]);
-        assert!(r.is_ok(), "C06: read failed without a fault");
+        kani::assume(n <= 6);
+        let mut buf = [0u8; 6];
+        let (r, _) = split(s.read(&mut buf[..n]));
+        assert!(r.is_some(), "C06: read failed without a fault");
         let got = r.unwrap();
         let avail = m.len - m.pos;
         assert!(got <= n && got <= avail, "C06: read returned more bytes than requested or than the stream holds");
@@ -147,10 +193,10 @@ fn step<F: Read + Write + Seek + 'static>(s: &mut Stream<F>, m: &mut Model) {
         m.pos += got;
     } else if op == 1 {
         let n: usize = kani::any();
-        kani::assume(n <= 12 && m.pos + n <= CAP);
-        let buf: [u8; 12] = kani::any();
-        let r = s.write(&buf[..n]);
-        assert!(r.is_ok(), "C06: write failed without a fault");
+        kani::assume(n <= 6 && m.pos + n <= CAP);
+        let buf: [u8; 6] = kani::any();
+        let (r, _) = split(s.write(&buf[..n]));
+        assert!(r.is_some(), "C06: write failed without a fault");
         let got = r.unwrap();
         assert!(got <= n, "C06: write claims more bytes than given");
         assert!(got > 0 || n == 0, "C06: write accepted nothing of a non-empty buffer");
@@ -165,7 +211,7 @@ fn step<F: Read + Write + Seek + 'static>(s: &mut Stream<F>, m: &mut Model) {
         }
     } else if op == 2 || op == 5 {
         let x: i64 = kani::any();
-        kani::assume(x >= -80 && x <= 80);
+        kani::assume(x >= -40 && x <= 40);
         kani::assume(op != 2 || x >= 0);
         let cur: bool = kani::any();
         let (arg, target) = if op == 2 {
@@ -175,18 +221,18 @@ fn step<F: Read + Write + Seek + 'static>(s: &mut Stream<F>, m: &mut Model) {
         } else {
             (SeekFrom::End(x), m.len as i64 + x)
         };
-        let r = s.seek(arg);
+        let (r, k) = split(s.seek(arg));
         if target >= 0 && target <= m.len as i64 {
-            assert!(r.is_ok() && r.unwrap() == target as u64, "C06: seek inside [0, len] must succeed and return the new position");
+            assert!(r == Some(target as u64), "C06: seek inside [0, len] must succeed and return the new position");
             m.pos = target as usize;
         } else {
-            assert!(r.is_err() && r.unwrap_err().kind() == ErrorKind::InvalidInput, "C06/C10: seek outside [0, len] must fail with InvalidInput");
+            assert!(r.is_none() && k == Some(ErrorKind::InvalidInput), "C06/C10: seek outside [0, len] must fail with InvalidInput");
         }
     } else if op == 3 {
         let x: usize = kani::any();
-        kani::assume(x <= 40);
-        let r = s.set_len(x as u64);
-        assert!(r.is_ok(), "C06: set_len failed without a fault");
+        kani::assume(x <= 24);
+        let (r, _) = split(s.set_len(x as u64));
+        assert!(r.is_some(), "C06: set_len failed without a fault");
         let mut i = m.len;
         while i < x {
             m.b[i] = 0;
@@ -197,8 +243,8 @@ fn step<F: Read + Write + Seek + 'static>(s: &mut Stream<F>, m: &mut Model) {
             m.pos = x;
         }
     } else {
-        let r = s.flush();
-        assert!(r.is_ok(), "C06/C13: flush failed without a fault");
+        let (r, _) = split(s.flush());
+        assert!(r.is_some(), "C06/C13: flush failed without a fault");
     }
     assert!(s.len() == m.len as u64, "C06: len() is not current");
     assert!(sacc::position(s) == m.pos as u64, "C06: position differs from the byte-vector cursor");
@@ -209,32 +255,26 @@ macro_rules! cache_hist {
         #[kani::proof]
         #[kani::stub(std::fmt::format, stub_format)]
         #[kani::stub(std::io::copy, stub_io_copy)]
-        #[kani::stub(crate::internal::stream::read_data_from_stream, model_read)]
-        #[kani::stub(crate::internal::stream::write_data_to_stream, model_write)]
-        #[kani::stub(crate::internal::stream::resize_stream, model_resize)]
         #[kani::stub(crate::internal::stream::Stream::minialloc, sacc::stub_upgrade)]
-        #[kani::unwind(66)]
+        #[kani::unwind(34)]
         fn $name() {
-            let mut p = small_parts(&[EOC, EOC], 0, L0 as u64, 1, 64);
-            let mut model = init(&p);
-            let file = PtrFile::over(&mut p.data, p.len);
-            let m: MiniAllocator<PS> = assemble(file, p.len, std::mem::take(&mut p.fat), std::mem::take(&mut p.entries), std::mem::take(&mut p.mf), std::mem::take(&mut p.mfree));
-            let arc = Arc::new(RwLock::new(m));
+            let mut model = init();
+            let arc = Arc::new(RwLock::new(tiny_minialloc()));
             let mut s = Stream::new(&arc, 1, $maxbuf);
             let mut i = 0;
             while i < $k {
-                step(&mut s, &mut model);
+                step(&mut s, &mut model, 255);
                 i += 1;
             }
-            let r = s.flush();
-            assert!(r.is_ok(), "C13: final flush failed without a fault");
+            let (r, _) = split(s.flush());
+            assert!(r.is_some(), "C13: final flush failed without a fault");
             {
                 let mut g = arc.write().unwrap();
                 let e_len = dacc::dir_entries(macc::directory(&g))[1].stream_len;
                 assert!(e_len == model.len as u64, "C02/C13: after flush the stored length differs from the handle's length");
                 let mut back = [0u8; CAP];
-                let r = sacc::read_data(&mut g, 1, 0, &mut back[..]);
-                assert!(r.is_ok() && r.unwrap() == model.len, "C02/C13: stored stream cannot be read back in full after flush");
+                let (r, _) = split(sacc::read_data(&mut g, 1, 0, &mut back[..]));
+                assert!(r == Some(model.len), "C02/C13: stored stream cannot be read back in full after flush");
                 let mut ok = true;
                 let mut q = 0;
                 while q < model.len {
@@ -257,3 +297,66 @@ cache_hist!(cache_hist2_b12, 2, 12);
 cache_hist!(cache_hist3_b12, 3, 12);
 cache_hist!(cache_hist3_b32, 3, 32);
 cache_hist!(cache_hist4_min, 4, 0);
+
+// Sequences with CONCRETE operation kinds (0 read, 1 write, 2 seek Start, 3 set_len,
+// 4 flush, 5 seek Current/End) and symbolic arguments/data: all 36 two-call and all
+// 216 three-call sequences are generated by vlib/seqs.py (h_cache_gen.rs).
+macro_rules! cache_seq {
+    ($name:ident, [$($op:expr),*], $maxbuf:expr) => {
+        #[kani::proof]
+        #[kani::stub(std::fmt::format, stub_format)]
+        #[kani::stub(std::io::copy, stub_io_copy)]
+        #[kani::stub(crate::internal::stream::Stream::minialloc, sacc::stub_upgrade)]
+        #[kani::unwind(34)]
+        fn $name() {
+            let mut model = init();
+            let arc = Arc::new(RwLock::new(tiny_minialloc()));
+            let mut s = Stream::new(&arc, 1, $maxbuf);
+            $( step(&mut s, &mut model, $op); )*
+            let (r, _) = split(s.flush());
+            assert!(r.is_some(), "C13: final flush failed without a fault");
+            {
+                let mut g = arc.write().unwrap();
+                let e_len = dacc::dir_entries(macc::directory(&g))[1].stream_len;
+                assert!(e_len == model.len as u64, "C02/C13: after flush the stored length differs from the handle's length");
+                let mut back = [0u8; CAP];
+                let (r, _) = split(sacc::read_data(&mut g, 1, 0, &mut back[..]));
+                assert!(r == Some(model.len), "C02/C13: stored stream cannot be read back in full after flush");
+                let mut ok = true;
+                let mut q = 0;
+                while q < model.len {
+                    ok &= back[q] == model.b[q];
+                    q += 1;
+                }
+                assert!(ok, "C02/C13: after a successful flush the storage does not hold the bytes accepted by write");
+                assert!(g.inner().flushes >= 1, "C13: Stream::flush did not flush the underlying file");
+            }
+            kani::cover!(true, "end");
+            std::mem::forget(s);
+            std::mem::forget(arc);
+        }
+    };
+}
+cache_seq!(cache_k1_read, [0], 0);
+cache_seq!(cache_k1_write, [1], 0);
+cache_seq!(cache_k1_seek, [2], 0);
+cache_seq!(cache_k1_setlen, [3], 0);
+cache_seq!(cache_k2_write_read, [1, 0], 0);
+cache_seq!(cache_k3_seek_write_read, [2, 1, 0], 0);
+
+/// Same result as `v.resize(n, val)` for n <= CAP, through loops with a fixed
+/// bound instead of an allocation of symbolic size (the overlay routes the two
+/// `self.data.resize(..)` sites of stream_buffer.rs here in the cache variant).
+pub fn vec_resize(v: &mut Vec<u8>, n: usize, val: u8) {
+    kani::assume(n <= CAP);
+    let old = v.len();
+    let mut nv: Vec<u8> = Vec::with_capacity(CAP);
+    let mut i = 0;
+    while i < CAP {
+        if i < n {
+            nv.push(if i < old { v[i] } else { val });
+        }
+        i += 1;
+    }
+    *v = nv;
+}
